@@ -36,7 +36,7 @@ type Exec struct {
 	counters      []*TrackClause
 	unsupported   []string
 	inSpec        bool
-	bufMeta       map[string]*bufMeta
+	encCache      map[string]Term
 	inTypeInv     bool
 	boxedAddrs    map[string]VAddr
 	subLits       map[string]Term
@@ -927,6 +927,13 @@ func (x *Exec) execInstr(fr *Frame, st *State, in ssa.Instruction) {
 
 func isCall(n ast.Node) bool  { _, ok := n.(*ast.CallExpr); return ok }
 func isIndex(n ast.Node) bool { _, ok := n.(*ast.IndexExpr); return ok }
+func isAny(n ast.Node) bool {
+	switch n.(type) {
+	case *ast.AssignStmt, *ast.IncDecStmt, *ast.CallExpr, *ast.ExprStmt:
+		return true
+	}
+	return false
+}
 func isSliceE(n ast.Node) bool {
 	_, ok := n.(*ast.SliceExpr)
 	return ok
@@ -1094,6 +1101,39 @@ func (x *Exec) notFutureRef(t Term) {
 	}
 	// (objects allocated inside loops are symbolic references below -1000000 and are not constrained)
 	x.fact(fmt.Sprintf("nf:%s@%d", t.S, x.allocCtr), Or(Ge(t, IntLit(-x.allocCtr)), Lt(t, IntLit(-1000000))))
+}
+
+// immutCheck: a write to an object of a type declared `immutable` is allowed only while the object
+// is one this function allocated itself (configuration is built once, by the registration
+// functions listed in the declaration, and never written afterwards).
+func (x *Exec) immutCheck(fr *Frame, st *State, typeKey string, obj Term, what string, pos token.Pos) {
+	im := x.eng.contracts.Immutable[typeKey]
+	if im == nil || x.top == nil || x.inSpec {
+		return
+	}
+	excepted := func(k string) bool {
+		if im.Except[k] {
+			return true
+		}
+		for e := range im.Except {
+			if strings.HasSuffix(e, "*") && strings.HasPrefix(k, e[:len(e)-1]) {
+				return true
+			}
+		}
+		return false
+	}
+	if excepted(fnKey(x.top, x.eng.home)) {
+		return
+	}
+	for _, f := range x.inlineStack {
+		if excepted(fnKey(f, x.eng.home)) {
+			return
+		}
+	}
+	if isFreshRef(obj) {
+		return
+	}
+	x.oblige(fr, st, "immut", what+":"+x.srcText(fr.fn, pos, isAny), "write to immutable configuration object ("+what+") outside the registration functions", pos, Lt(obj, IntLit(0)), []string{"C15", "C17"})
 }
 
 // fact asserts a type-level fact about a term once.
@@ -1400,6 +1440,7 @@ func (x *Exec) storeAddr(fr *Frame, st *State, a VAddr, v Value, pos token.Pos) 
 	case ALocal:
 		st.cells[a.Cell] = v
 	case AField:
+		x.immutCheck(fr, st, a.SKey, a.Obj, a.SKey+"."+a.St.Field(a.Idx).Name(), pos)
 		x.storeField(st, a.Obj, a.St, a.SKey, a.Idx, v)
 	case AGlobal:
 		name := "glob|" + a.Glob.Pkg.Pkg.Name() + "." + a.Glob.Name()
